@@ -11,6 +11,12 @@ int main(int argc, const char** argv)
         printf("e.g. %s OP_DUP OP_HASH160 '[62e907b15cbf27d5425399ebf6f0fb50ebb88f18]' OP_EQUALVERIFY OP_CHECKSIG\n", argv[0]);
         return 1;
     }
-    std::vector<Value> result = Value::parse_args(argc, argv, 1);
-    fprintf(stdout, "%s\n", Value::serialize(result).c_str());
+    try {
+        std::vector<Value> result = Value::parse_args(argc, argv, 1);
+        fprintf(stdout, "%s\n", Value::serialize(result).c_str());
+    } catch (std::exception const& ex) {
+        // inline functions report bad arguments by throwing (script number overflow, division by zero, ...)
+        fprintf(stderr, "error: %s\n", ex.what());
+        return 1;
+    }
 }
